@@ -1,4 +1,5 @@
 import VermouthModel.C18
+import VermouthModel.C18_Map
 open Proto C18
 
 def posOf (x y z : Tok) : Option Pos := do pure (← x.int?, ← y.int?, ← z.int?)
@@ -33,6 +34,31 @@ def encOutcome : Outcome → String
     "ok " ++ encList (out.map fun c => encList [encStr c.ta, encStr c.tb, encNat c.d2])
       ++ " " ++ encList (out.map fun c => encList [encInt c.bbA, encInt c.bbB])
 
+def jobOf (t : Tok) : Option Job := do
+  match ← t.list? with
+  | [atoms, edges, contacts] =>
+    pure { atoms := ← (← atoms.list?).mapM atomOf, edges := ← (← edges.list?).mapM edgeOf,
+           contacts := ← (← contacts.list?).mapM contactOf }
+  | _ => none
+
+def encJob (vs : List VSite) (o : Outcome) : String :=
+  "vs " ++ encList (vs.map encVS) ++ " inter "
+    ++ encList ((vsInteractions vs).map fun p => encList [encInt p.1, encInt p.2])
+    ++ " go " ++ encOutcome o
+
+/-- one VirtualSiteCreator + one ComputeStructuralGoBias applied to the jobs in a row -/
+def history (reset : Bool) (P : Params) (vsn : String) : List Job → Cache → List String
+  | [], _ => []
+  | j :: rest, cache =>
+    let vs := addVirtualSites P.pre P.backbone vsn j.atoms
+    let r := selectContactsS (if reset then [] else cache) P (withSites j.atoms vs) j.edges j.contacts
+    encJob vs r.1 :: history reset P vsn rest r.2
+
+def encMap : MapResult → String
+  | .valueError => "valueerror"
+  | .ioError => "ioerror"
+  | .ok cs => "ok " ++ encList (cs.map fun c => encList [encInt c.residA, encStr c.chainA, encInt c.residB, encStr c.chainB])
+
 def handle (_ : Unit) (toks : List Tok) : Unit × String :=
   let r : Option String :=
     match toks with
@@ -47,6 +73,14 @@ def handle (_ : Unit) (toks : List Tok) : Unit × String :=
         pure ("vs " ++ encList (vs.map encVS) ++ " inter "
               ++ encList ((vsInteractions vs).map fun p => encList [encInt p.1, encInt p.2])
               ++ " go " ++ encOutcome o)
+    | [Tok.str "gohist", reset, pre, bb, vsn, lp, lq, up, uq, sep, jobs] => do
+        let P : Params := { pre := ← pre.str?, backbone := ← bb.str?,
+                            low := { p := ← lp.int?, q := ← lq.nat? }, up := { p := ← up.int?, q := ← uq.nat? },
+                            sep := ← sep.int? }
+        let js ← (← jobs.list?).mapM jobOf
+        pure (" | ".intercalate (history ((← reset.int?) != 0) P (← vsn.str?) js []))
+    | [Tok.str "gomap", text] => do
+        pure (encMap (readGoMap (← text.str?).toList))
     | _ => none
   ((), r.getD "bad-op")
 
